@@ -14,10 +14,10 @@ EXTENDS Basis
 PDim(s) == Len(s.deg)
 TrivKV == <<Zero, One>>
 \* three-direction view: missing directions are degree 0 with one control point
-D3(s) == [deg  |-> [d \in 1..3 |-> IF d <= PDim(s) THEN s.deg[d] ELSE 0],
+D3(s) == TLCEval([deg  |-> [d \in 1..3 |-> IF d <= PDim(s) THEN s.deg[d] ELSE 0],
           kv   |-> [d \in 1..3 |-> IF d <= PDim(s) THEN s.kv[d] ELSE TrivKV],
-          size |-> [d \in 1..3 |-> IF d <= PDim(s) THEN s.size[d] ELSE 1]]
-P3(prm) == [d \in 1..3 |-> IF d <= Len(prm) THEN prm[d] ELSE Zero]
+          size |-> [d \in 1..3 |-> IF d <= PDim(s) THEN s.size[d] ELSE 1]])
+P3(prm) == TLCEval([d \in 1..3 |-> IF d <= Len(prm) THEN prm[d] ELSE Zero])
 CDim(s) == Len(s.P[1])                         \* stored coordinates per control point
 \* 1-based position in s.P of control point (iu, iv, iw), all 0-based
 Idx(size, iu, iv, iw) == iv + size[2] * (iu + size[1] * iw) + 1
@@ -39,18 +39,18 @@ TensorSum(s, sp, B) ==
       InV(a) == VSum([b \in 1..(t.deg[2] + 1) |-> VScale(B[2][b], InW(a, b))], cd)
   IN  VSum([a \in 1..(t.deg[1] + 1) |-> VScale(B[1][a], InV(a))], cd)
 Spans(s, prm) == LET t == D3(s) q == P3(prm) IN
-  [d \in 1..3 |-> SpanDef(t.deg[d], t.kv[d], t.size[d], q[d])]
+  TLCEval([d \in 1..3 |-> SpanDef(t.deg[d], t.kv[d], t.size[d], q[d])])
 \* homogeneous (or plain) position: sum of N_u N_v N_w P
 PointH(s, prm) ==
   LET t == D3(s) q == P3(prm) IN
-  TensorSum(s, Spans(s, prm), [d \in 1..3 |-> ActiveN(t.deg[d], t.kv[d], q[d])])
-Project(pw) == LET n == Len(pw) IN [k \in 1..(n - 1) |-> RDiv(pw[k], pw[n])]
+  TensorSum(s, Spans(s, prm), TLCEval([d \in 1..3 |-> ActiveN(t.deg[d], t.kv[d], q[d])]))
+Project(pw) == LET n == Len(pw) IN TLCEval([k \in 1..(n - 1) |-> RDiv(pw[k], pw[n])])
 Point(s, prm) == IF s.rat THEN Project(PointH(s, prm)) ELSE PointH(s, prm)
 \* mixed partial derivative of the homogeneous position, ks = orders per direction
 DerivH(s, prm, ks) ==
   LET t == D3(s) q == P3(prm)
       k3 == [d \in 1..3 |-> IF d <= Len(ks) THEN ks[d] ELSE 0] IN
-  TensorSum(s, Spans(s, prm), [d \in 1..3 |-> ActiveDN(t.deg[d], t.kv[d], q[d], k3[d])])
+  TensorSum(s, Spans(s, prm), TLCEval([d \in 1..3 |-> ActiveDN(t.deg[d], t.kv[d], q[d], k3[d])]))
 
 \* rational derivatives (curves): C^(k) = (A^(k) - sum_{i=1..k} C(k,i) w^(i) C^(k-i)) / w
 RECURSIVE RatDerivCurve(_, _, _)
@@ -79,8 +79,8 @@ Deriv(s, prm, ks) ==
   ELSE RatDerivSurf(s, prm, ks[1], ks[2])
 
 \* --- views -----------------------------------------------------------------
-Weights(s) == [i \in 1..Len(s.P) |-> IF s.rat THEN s.P[i][CDim(s)] ELSE One]
-Ctrlpts(s) == [i \in 1..Len(s.P) |-> IF s.rat THEN Project(s.P[i]) ELSE s.P[i]]
+Weights(s) == TLCEval([i \in 1..Len(s.P) |-> IF s.rat THEN s.P[i][CDim(s)] ELSE One])
+Ctrlpts(s) == TLCEval([i \in 1..Len(s.P) |-> IF s.rat THEN Project(s.P[i]) ELSE s.P[i]])
 RECURSIVE RMinSeq(_)
 RMinSeq(q) == IF Len(q) = 1 THEN q[1] ELSE RMin(q[1], RMinSeq(Tail(q)))
 RECURSIVE RMaxSeq(_)
@@ -99,7 +99,7 @@ GridParams(s, ns) ==
         LET z == x - 1
             iw == z % n3[3]  iv == (z \div n3[3]) % n3[2]  iu == z \div (n3[3] * n3[2])
         IN  [d \in 1..PDim(s) |-> IF d = 1 THEN L[1][iu + 1] ELSE IF d = 2 THEN L[2][iv + 1] ELSE L[3][iw + 1]]]
-SampleGrid(s, ns) == LET G == GridParams(s, ns) IN [x \in 1..Len(G) |-> Point(s, G[x])]
+SampleGrid(s, ns) == LET G == GridParams(s, ns) IN TLCEval([x \in 1..Len(G) |-> Point(s, G[x])])
 
 \* --- "denotes the same function" ---------------------------------------------
 \* product of per-direction parameter sets, as sequences <<u [,v [,w]]>>
@@ -121,10 +121,10 @@ ActiveIdx(s, prm) == LET t == D3(s) sp == Spans(s, prm) IN
 NetCoord(i, k, seed) == ((i * i * 3 + i * (7 + 2 * k) + k * 5 + seed * 11 + ((i * k) % 3)) % 13) - 6
 NetW(i, seed) == LET j == (i * 3 + seed) % 4 IN IF j = 0 THEN One ELSE IF j = 1 THEN RI(2) ELSE IF j = 2 THEN Half ELSE RI(3)
 GenNet(n, dim, rat, seed) ==
-  [i \in 1..n |->
-     IF rat THEN [k \in 1..(dim + 1) |-> IF k <= dim THEN RMul(RI(NetCoord(i, k, seed)), NetW(i, seed)) ELSE NetW(i, seed)]
-     ELSE [k \in 1..dim |-> RI(NetCoord(i, k, seed))]]
+  TLCEval([i \in 1..n |->
+     IF rat THEN TLCEval([k \in 1..(dim + 1) |-> IF k <= dim THEN RMul(RI(NetCoord(i, k, seed)), NetW(i, seed)) ELSE NetW(i, seed)])
+     ELSE TLCEval([k \in 1..dim |-> RI(NetCoord(i, k, seed))])])
 MkShape(degs, kvs, dim, rat, seed) ==
-  LET sizes == [d \in 1..Len(degs) |-> NumCtrl(degs[d], kvs[d])] IN
+  LET sizes == TLCEval([d \in 1..Len(degs) |-> NumCtrl(degs[d], kvs[d])]) IN
   [deg |-> degs, kv |-> kvs, size |-> sizes, rat |-> rat, P |-> GenNet(ProdInts(sizes), dim, rat, seed)]
 =============================================================================
